@@ -9,9 +9,6 @@
              'subtrees are compared with the implementation on every case',
              'tokenisation (lines, csv records, EDI segments) is outside this property: units are what the '
              'tokenizers deliver'],
- 'assumptions': ['EDI only: edi_eq_spec_nested is proved for every fuel with which the run reaches a terminal result '
-                 '(..._partial); termination of edi_step within run_fuel is swept over a small scope and checked on '
-                 'every correspondence case (the flat-file machine has the full theorem: hier_terminates, machine_eq_spec)',
-                 'max >= 1 for every declaration (not enforced by validation: finding F17)',
+ 'assumptions': ['max >= 1 for every declaration (not enforced by validation: finding F17)',
                  'EDI: no_root_repeat (known finding F14) and input ends with a segment terminator (known '
                  'finding F8)']}
